@@ -284,8 +284,8 @@ def monitor_trace(t, P):
             if len(by_conn) > (1 if ms else 0):
                 return i, 'prepare on client %d caused messages on other connections: %s' % (c, d['msgs'])
             w = l[2]
-            pre = {3: [24], 6: [24]}.get(w, [24, 22])
-            post = {3: [21], 6: [21]}.get(w, [23, 21])
+            pre = [24, 22] if w in (4, 5) else [24]
+            post = [23, 21] if w in (4, 5) else [21]
             qs = [m[2] for m in ms if m[1] == 1]
             ps = [m for m in ms if m[1] == 2]
             if qs != pre + post:
